@@ -647,6 +647,10 @@ class Nest(MultiCrossBlockRepeat):
         for f in inner_block.design:
             if f not in design:
                 design.append(f)
+        # A block keeps its continuous factors apart from its design
+        for f in outer_block.continuous_factors + inner_block.continuous_factors:
+            if f not in design:
+                design.append(f)
         crossings = outer_block.crossings + inner_block.crossings
         inner_len = inner_block.trials_per_sample() - inner_block.common_preamble_size()
         # A block without crossings still has a placeholder sustain count and weight;
@@ -713,6 +717,11 @@ class Merge(MultiCrossBlock):
                 crossing_weights.append(w)
             for ct in b.orig_constraints:
                 constraints.append(ct)
+        # A block keeps its continuous factors apart from its design
+        for b in blocks:
+            for f in b.continuous_factors:
+                if f not in design:
+                    design.append(f)
         
         self._create(
             who=who,
